@@ -131,6 +131,10 @@ def findings_opt():
     # F13: a function whose body holds a try with a finally part and that returns a closure holding another try: "bad case" at -Q2+
     fj = _os.path.join(_os.path.dirname(_os.path.abspath(__file__)), "fixed_json", "F13_try_and_closure_try.json")
     out.append(_json.load(open(fj)))
+    # F15: a generator whose body calls (and discards the values of) a function returning several values that in turn calls an
+    # operation of a parametrised domain: the compiler faults (segmentation violation) at -Q2+
+    fj = _os.path.join(_os.path.dirname(_os.path.abspath(__file__)), "fixed_json", "F15_multi_value_call_discarded_in_generator.json")
+    out.append(_json.load(open(fj)))
     return out
 
 
